@@ -24,7 +24,7 @@ ASSUME \A i \in 1 .. NT : TLCSet(i, 1) /\ TLCSet(NT + i, "")
 
 Ev == Traces[t][l]
 
-S0 == [target |-> "absent", alive |-> FALSE, tk |-> FALSE, tv |-> <<>>, file |-> <<>>, stale |-> FALSE]
+S0 == [target |-> "absent", alive |-> FALSE, tk |-> FALSE, tv |-> <<>>, file |-> <<>>, bel |-> ""]
 
 (* ---- clauses: <<name, holds>> evaluated on the state before the event ---- *)
 FsClauses(e) ==
@@ -42,13 +42,13 @@ StartClauses(e) ==
      <<"Consistent", e.target = s.target>>,
      <<"Retry.believed", e.ok => P!SkipOK(e.skip, e.target, e.cur)>> >>
 
-Stale(e) == DevBelieveEarly /\ e.skip
+(* Dev_BelieveEarly (known finding, only with DevBelieveEarly = TRUE): the snapshot of a save that *)
+(* failed stays "believed" (s.bel) and saving it is skipped until another snapshot is saved       *)
+Stale(e) == DevBelieveEarly /\ e.skip /\ (e.faults > 0 \/ s.bel = e.cur)
 RetClauses(e) ==
   << <<"Consistent", e.target = s.target>>,
-     <<"Retry.saved", (e.must /\ e.faults = 0 /\ e.out # "crash") =>
-                         (e.target = e.cur \/ (Stale(e) /\ s.stale))>>,
-     <<"Retry.believed", e.out # "crash" =>
-                         (P!SkipOK(e.skip, e.target, e.cur) \/ (Stale(e) /\ (e.faults > 0 \/ s.stale)))>> >>
+     <<"Retry.saved", (e.must /\ e.faults = 0 /\ e.out # "crash") => (e.target = e.cur \/ Stale(e))>>,
+     <<"Retry.believed", e.out # "crash" => (P!SkipOK(e.skip, e.target, e.cur) \/ Stale(e))>> >>
 
 Clauses(e) == CASE e.ev = "fs" -> FsClauses(e)
                 [] e.ev = "boot" -> BootClauses(e)
@@ -63,11 +63,11 @@ Nxt(e) ==
   CASE e.ev = "fs" ->
          IF e.target # s.target THEN [s EXCEPT !.target = e.target, !.tk = TRUE, !.tv = e.vals] ELSE s
     [] e.ev = "boot" ->
-         [s EXCEPT !.target = e.pre, !.alive = FALSE, !.file = e.file, !.stale = FALSE,
+         [s EXCEPT !.target = e.pre, !.alive = FALSE, !.file = e.file, !.bel = "",
                    !.tk = (s.tk /\ e.pre = s.target)]
     [] e.ev = "start" -> [s EXCEPT !.alive = TRUE]
     [] e.ev = "ret" -> [s EXCEPT !.alive = (e.out # "crash"),
-                                 !.stale = (e.out # "crash" /\ e.skip /\ e.target # e.cur)]
+                                 !.bel = IF e.out = "crash" THEN "" ELSE IF e.skip THEN e.cur ELSE s.bel]
 
 TInit == t \in 1 .. NT /\ l = 1 /\ s = S0
 TStep == /\ l <= Len(Traces[t])
